@@ -400,6 +400,21 @@ theorem srt_varint_kind (k : IntKind) (named : Bool) (v : Int) (hv : k.holds v =
       · simp [hbig]
     exact hall b hk (.int k named) _ hct
 
+theorem ms_cqldur (m d n : Int) : marshalScalar .duration (.cqldur m d n) = .ok (some (encVints m d n)) := rfl
+theorem us_cqldur (isNil : Bool) (d : Bytes) : unmarshalScalar .duration isNil d .cqldur =
+    if d = [] then .ok (.cqldur 0 0 0) else
+      (match decVints d with | some (m, dd, n) => .ok (.cqldur m dd n) | none => .err) := rfl
+
+/-- gocql.Duration ↔ duration: months and days of int32, nanoseconds of int64 — every value (three zig-zag vints) -/
+theorem srt_duration (m d n : Int) (hm : fitsS 4 m = true) (hd : fitsS 4 d = true) (hn : fitsS 8 n = true) :
+    SRT .duration .cqldur (.cqldur m d n) := by
+  intro ob h
+  rw [ms_cqldur] at h
+  have := ok_inj h; subst this
+  rw [us_cqldur]
+  simp only [dataBytes, Option.getD, if_neg (C02Vint.encVints_ne_nil m d n hm hd hn),
+    C02Vint.decVints_encVints m d n hm hd hn]
+
 /-- the documented (column, Go type, value) triples of the scalar columns for which the same-type round trip is claimed:
     each line a Go kind with ALL its values, restricted only where the line says so -/
 inductive Leaf : CqlTy → GoTy → GoVal → Prop
@@ -435,6 +450,9 @@ inductive Leaf : CqlTy → GoTy → GoVal → Prop
       (hrange : fitsU 4 (sec / 86400 + 2147483648) = true) : Leaf .date .time (.time sec 0)
   | uuid {t} (ht : isUuid t) (b : Bytes) (hb : b.length = 16) : Leaf t .uuid (.uuid b)
   | arr16 {t} (ht : isUuid t) (b : Bytes) (hb : b.length = 16) : Leaf t .arr16 (.arr16 b)
+  /-- gocql.Duration: months / days of int32, nanoseconds of int64 -/
+  | duration (m d n : Int) (hm : fitsS 4 m = true) (hd : fitsS 4 d = true) (hn : fitsS 8 n = true) :
+      Leaf .duration .cqldur (.cqldur m d n)
   /-- net.IP: 4 bytes, or 16 bytes not IPv4-mapped (the mapped ones: `C02_inet_mapped`) -/
   | inet (b : Bytes) (hb : b.length = 4 ∨ (b.length = 16 ∧ ipTo4 b = none)) : Leaf .inet .ip (.ip b)
 
@@ -456,7 +474,7 @@ theorem Leaf.shape {t : CqlTy} {ty : GoTy} {g : GoVal} (h : Leaf t ty g) :
 
 /-- SCALAR ROUND TRIP: for every documented triple of `Leaf` — every scalar column type, each Go kind with all its
     values — whatever Marshal returns without error, Unmarshal of it into a fresh value of the same Go type is the
-    value that was given; every protocol version.  (Same statement for duration: NOT proved, see props `partial`.) -/
+    value that was given; every protocol version. -/
 theorem C02_scalar_roundtrip (p : Nat) (t : CqlTy) (ty : GoTy) (g : GoVal) (h : Leaf t ty g) :
     ∀ ob, marshal p t g = .ok ob → unmarshal p t ty ob = .ok g := by
   obtain ⟨hs1, hs2, hs3⟩ := h.shape
@@ -483,6 +501,7 @@ theorem C02_scalar_roundtrip (p : Nat) (t : CqlTy) (ty : GoTy) (g : GoVal) (h : 
   | uuid ht b hb => exact srt_uuid _ ht b hb
   | arr16 ht b hb => exact srt_arr16 _ ht b hb
   | inet b hb => exact srt_inet b hb
+  | duration m d n hm hd hn => exact srt_duration m d n hm hd hn
 
 /-- non-vacuity: boundaries named by the property — a negative big.Int in the upper half of its byte width, −0.0,
     a NaN payload, a pre-epoch instant, the zero time -/
@@ -491,6 +510,8 @@ example : Leaf .double (.f64 false) (.f64 false 0x8000000000000000) := .f64 _ _ 
 example : Leaf .float (.f32 false) (.f32 false 0x7fa00001) := .f32 _ _ (by decide) (by intro h; cases h)
 example : Leaf .timestamp .time (.time (-1) 999000000) := .tsTime _ _ (by decide) (by decide) (by decide) (by decide)
 example : Leaf .timestamp .time (.time zeroTimeSec 0) := .tsTime _ _ (by decide) (by decide) (by decide) (by decide)
+example : Leaf .duration .cqldur (.cqldur (-2147483648) 2147483647 (-9223372036854775808)) :=
+  .duration _ _ _ (by decide) (by decide) (by decide)
 example : Leaf .date .time (.time (-86400) 0) := .dateTime _ (by decide) (by decide) (by decide)
 example : marshalVarintBig (-32768) = [128, 0] := by
   rw [marshalVarintBig_spec, specVarint]; simp [byteOfNat]; rw [specVarint]; simp [byteOfNat]
@@ -636,8 +657,8 @@ example : FieldsRT 4 [.int, .list .text, .text] [.ptr (.int .int false), .slice 
   · intro b hb; simp [marshal] at hb
 
 /-- duration, the zig-zag layer: decIntZigZag (marshal.go) inverts encIntZigZag on EVERY int64 (months, days and
-    nanoseconds of a duration are written as vints of their zig-zag codes).  The byte layer — decVint's loop after
-    encVint's — is tied to the code (GenTie.C12.encVint / decVint) and compared by `rt` / `rtsame`, not yet proved inverse. -/
+    nanoseconds of a duration are written as vints of their zig-zag codes).  The byte layer: `C02Vint.decVint_specVint`
+    (decVint reads back the vint encVint wrote, every int64) — used by the `duration` line of `Leaf`. -/
 theorem C02_zigzag_roundtrip (n : Int) (h : fitsS 8 n = true) : decIntZigZag (encIntZigZag n) = n := by
   rw [C12Vint.encIntZigZag_spec n h, C02Vint.decIntZigZag_spec _ (C12Vint.zigzag_lt n h), C12Vint.unzigzag_zigzag]
 
